@@ -94,19 +94,24 @@ pub fn gen_case(rng: &mut Rng, _thorough: bool, case: u64) -> J {
         }))
     } else { None };
     let spec = spec_util::from_yaml_str(SPEC).unwrap();
-    let cfg = AlgoConfigBuilder::new().num_concurrent(nc).build().unwrap();
+    // the never-suspending family also runs with sample size 2 or 3: from 20 individuals on, re-evaluations give an
+    // individual further seeds, so ids and seeds part company (they coincide for ever at sample size 1)
+    let ss_run = if immediate { *rng.pick(&[1usize, 2, 3]) } else { 1 };
+    let cfg = AlgoConfigBuilder::new().num_concurrent(nc).individual_sample_size(ss_run).build().unwrap();
+    let pairs: Arc<std::sync::Mutex<Vec<(u64, usize)>>> = Arc::new(std::sync::Mutex::new(Vec::new()));
     let res = if immediate {
-        struct Imm { calls: Arc<AtomicUsize>, scale: f64 }
+        struct Imm { calls: Arc<AtomicUsize>, scale: f64, pairs: Arc<std::sync::Mutex<Vec<(u64, usize)>>> }
         #[async_trait::async_trait]
         impl cambrian::meta::AsyncObjectiveFunction for Imm {
-            async fn evaluate(&self, v: J, _abort: async_broadcast::Receiver<()>, _seed: u64, _id: usize) -> Result<Option<f64>, Error> {
+            async fn evaluate(&self, v: J, _abort: async_broadcast::Receiver<()>, seed: u64, id: usize) -> Result<Option<f64>, Error> {
                 let k = self.calls.fetch_add(1, Ordering::SeqCst);
+                self.pairs.lock().unwrap().push((seed, id));
                 let x = v["x"].as_f64().unwrap_or(0.0);
                 Ok(Some((x * x - k as f64 * 0.01) * self.scale))
             }
         }
         drop(obj);
-        sync_launch::launch_with_async_obj_func(spec, Imm { calls: calls.clone(), scale }, cfg, crits.iter().map(|c| c.1.clone()).collect::<Vec<_>>(), None, false, Some(&info))
+        sync_launch::launch_with_async_obj_func(spec, Imm { calls: calls.clone(), scale, pairs: pairs.clone() }, cfg, crits.iter().map(|c| c.1.clone()).collect::<Vec<_>>(), None, false, Some(&info))
     } else {
         sync_launch::launch(spec, obj, cfg, crits.iter().map(|c| c.1.clone()).collect::<Vec<_>>(), None, threaded, Some(&info))
     };
@@ -117,6 +122,9 @@ pub fn gen_case(rng: &mut Rng, _thorough: bool, case: u64) -> J {
     let rows: Vec<&str> = csv.lines().skip(1).collect();
     let row_objs: Vec<J> = rows.iter().map(|r| { let last = r.rsplit(';').next().unwrap_or(""); if last.is_empty() { J::Null } else { last.parse::<f64>().map(|x| json!(order_code(x))).unwrap_or(json!("unparsable")) } }).collect();
     let row_inputs: Vec<String> = rows.iter().map(|r| { let f: Vec<&str> = r.split(';').collect(); if f.len() >= 10 { canon(&serde_json::from_str::<J>(&f[7..f.len() - 2].join(";")).unwrap_or(J::Null)) } else { String::new() } }).collect();
+    // (individual id, seed) of every record, as written in the first and the last-but-one column
+    let row_pairs: Vec<J> = rows.iter().map(|r| { let f: Vec<&str> = r.split(';').collect(); if f.len() >= 10 { json!([f[f.len() - 2].parse::<u64>().ok(), f[0].parse::<u64>().ok()]) } else { J::Null } }).collect();
+    let call_pairs: Vec<J> = pairs.lock().unwrap().iter().map(|(s, i)| json!([s, i])).collect();
     let read_best = || std::fs::read_to_string(dir.join("best.json")).ok().and_then(|t| serde_json::from_str::<J>(&t).ok()).map(|j| canon(&j));
     let mut best_file = read_best();
     // diagnostic: a file that is not (yet) valid JSON right after the return is read once more a moment later; the
@@ -149,5 +157,6 @@ pub fn gen_case(rng: &mut Rng, _thorough: bool, case: u64) -> J {
     }
     json!({"mode": "run", "configs": cfgs, "criteria": crits.iter().map(|c| c.0.clone()).collect::<Vec<_>>(), "nc": nc, "threaded": threaded, "barrier": barrier, "immediate": immediate, "tiny": scale != 1.0, "failAt": fail_at,
            "calls": calls.load(Ordering::SeqCst), "maxLive": max_live.load(Ordering::SeqCst), "ret": ret,
-           "csvRows": rows.len(), "rowObjs": row_objs, "rowInputs": row_inputs, "bestFile": best_file, "bestLate": best_late, "stalledStarted": stalled_started})
+           "csvRows": rows.len(), "rowObjs": row_objs, "rowInputs": row_inputs, "bestFile": best_file, "bestLate": best_late, "stalledStarted": stalled_started,
+           "sampleSize": ss_run, "rowPairs": if immediate { json!(row_pairs) } else { J::Null }, "callPairs": if immediate { json!(call_pairs) } else { J::Null }})
 }
